@@ -103,6 +103,16 @@ func devMain(args []string) {
 			for _, f := range r.Fatal {
 				fmt.Println("  FATAL:", f)
 			}
+			if *verbose && r.VC != nil {
+				var ns []string
+				for n := range r.VC.notes {
+					ns = append(ns, n)
+				}
+				sort.Strings(ns)
+				for _, n := range ns {
+					fmt.Println("  note:", n)
+				}
+			}
 			results = append(results, r)
 		}
 	}
